@@ -106,6 +106,29 @@ static void op_lwelin(const V &a, V &r) {  // opcode n p a1(n) b1 a2(n) b2 ; opc
     c1->a = o1; c2->a = o2; res->a = o3;
     delete_LweSample(res); delete_LweSample(c2); delete_LweSample(c1); delete_LweParams(lp);
 }
+// variance kind opc n p : the variance annotation after the operation, times 16 (inputs carry 1/4 and 1/16)
+static void op_variance(const V &a, V &r) {
+    int kind = a[0], opc = a[1], n = a[2]; int32_t p = (int32_t) a[3];
+    if (kind == 0) {
+        LweParams *lp = new_LweParams(n, 0., 0.25); LweSample *c1 = new_LweSample(lp), *c2 = new_LweSample(lp), *res = new_LweSample(lp);
+        for (int i = 0; i < n; i++) { c1->a[i] = i * 77 + 1; c2->a[i] = i * 31 - 5; res->a[i] = 9; } c1->b = 5; c2->b = 6; res->b = 7;
+        c1->current_variance = 0.25; c2->current_variance = 0.0625; res->current_variance = 123.;
+        LweSample *out = c1;
+        switch (opc) { case 0: lweAddTo(c1, c2, lp); break; case 1: lweSubTo(c1, c2, lp); break; case 2: lweAddMulTo(c1, p, c2, lp); break; case 3: lweSubMulTo(c1, p, c2, lp); break;
+            case 4: lweNegate(res, c1, lp); out = res; break; case 5: lweClear(res, lp); out = res; break; case 6: lweNoiselessTrivial(res, p, lp); out = res; break; case 7: lweCopy(res, c1, lp); out = res; break; }
+        r.push_back((ll) llround(out->current_variance * 16.));
+        delete_LweSample(res); delete_LweSample(c2); delete_LweSample(c1); delete_LweParams(lp);
+    } else {
+        TLweParams *tp = new_TLweParams(n, 2, 0., 0.25); TLweSample *c1 = new_TLweSample(tp), *c2 = new_TLweSample(tp), *res = new_TLweSample(tp);
+        for (int i = 0; i <= 2; i++) for (int j = 0; j < n; j++) { c1->a[i].coefsT[j] = i + j; c2->a[i].coefsT[j] = i * j + 3; res->a[i].coefsT[j] = 1; }
+        c1->current_variance = 0.25; c2->current_variance = 0.0625; res->current_variance = 123.;
+        TLweSample *out = c1;
+        switch (opc) { case 0: tLweAddTo(c1, c2, tp); break; case 1: tLweSubTo(c1, c2, tp); break; case 2: tLweAddMulTo(c1, p, c2, tp); break; case 3: tLweSubMulTo(c1, p, c2, tp); break;
+            case 20: tLweClear(res, tp); out = res; break; case 21: tLweCopy(res, c1, tp); out = res; break; case 22: tLweNoiselessTrivial(res, c2->b, tp); out = res; break; }
+        r.push_back((ll) llround(out->current_variance * 16.));
+        delete_TLweSample(res); delete_TLweSample(c2); delete_TLweSample(c1); delete_TLweParams(tp);
+    }
+}
 extern "C" void torusPolynomialMultNaive_aux(Torus32* __restrict result, const int32_t* __restrict poly1, const Torus32* __restrict poly2, const int32_t N);
 static void op_poly(const V &a, V &r) {  // opcode N p a(N) b(N) [c(N)]
     int opc = a[0], N = a[1]; int32_t p = (int32_t) a[2];
@@ -353,6 +376,7 @@ int main(int argc, char **argv) {
         else if (op == "lwephase") op_lwephase(a, r);
         else if (op == "lwelin") op_lwelin(a, r);
         else if (op == "poly") op_poly(a, r);
+        else if (op == "variance") op_variance(a, r);
         else if (op == "tlwe") op_tlwe(a, r);
         else if (op == "keyswitch") op_keyswitch(a, r);
         else if (op == "ksreal") op_ksreal(a, r);
